@@ -288,6 +288,33 @@ def run(ctx):
             for e in vv.events_of(eid):
                 if e.kind == 'assign' and e.eid == eid and TAB in repr(e.lhs) and e.lhs[0] in ('call', 'idx'):
                     ctx.check(f['q'] == GQ + '::set_mapping', 'R5', '%s stores an element of pid_to_rank_map_' % f['q'].replace('simgrid::smpi::', ''), where(f, e.line), '', key='R5|%s|element store' % f['q'].rsplit('::', 1)[-1])
+    # the two tables are inverse of each other: set_mapping stores rank_to_pid_map_[rank] = pid and pid_to_rank_map_[pid] = rank
+    sm = P.fn(GQ + '::set_mapping')
+    vsm = A.view(sm)
+    ppid, prank = lib.parm(sm, 'pid'), lib.parm(sm, 'rank')
+    defs = {}
+    for eid in range(len(sm['elems'])):
+        for e in vsm.events_of(eid):
+            if e.kind == 'assign' and e.lhs[0] == 'var' and e.lhs[1] == 'local':
+                defs.setdefault(e.lhs, []).append(e.rhs)
+
+    def res5(t):
+        while t[0] in ('cast', 'conv'):
+            t = t[2]
+        if t[0] == 'var' and t in defs and len(defs[t]) == 1:
+            return res5(defs[t][0])
+        return t
+    stores = {}
+    for eid in range(len(sm['elems'])):
+        for e in vsm.events_of(eid):
+            if e.kind == 'assign' and e.eid == eid and e.lhs[0] in ('call', 'idx'):
+                tab = [x[2].rsplit('::', 1)[-1] for x in ex.subterms(e.lhs) if x[0] == 'field' and x[2].endswith(('pid_to_rank_map_', 'rank_to_pid_map_'))]
+                ixt = e.lhs[3][0] if e.lhs[0] == 'call' and e.lhs[3] else (e.lhs[2] if e.lhs[0] == 'idx' else None)
+                if tab and ixt is not None:
+                    stores[tab[0]] = (res5(ixt), res5(e.rhs))
+    ok_inv = stores.get('pid_to_rank_map_') == (ppid, prank) and stores.get('rank_to_pid_map_') == (prank, ppid)
+    ctx.check(ok_inv, 'R5', 'set_mapping keeps the two tables inverse of each other: rank_to_pid_map_[rank] = pid, pid_to_rank_map_[pid] = rank', where(sm),
+              'stores: %s' % {k: (ex.pretty(v_[0]), ex.pretty(v_[1])) for k, v_ in sorted(stores.items())}, key='R5|set_mapping|inverse tables')
     rk = P.fn(GQ + '::rank')
     vr = A.view(rk)
     conds = [e for eid in range(len(rk['elems'])) for e in vr.events_of(eid) if e.kind == 'assign' and e.rhs[0] == 'cond' and TAB in repr(e.rhs)]
